@@ -161,7 +161,9 @@ def run_class_case(ci, pool):
         return (ver, name) + r
     # with custom content: custom properties sort after the specification's properties, alphabetically
     if cat == "objects" or ver == "2.1":
-        cdoc = dict(doc, x_zz=STR_POOL[pool % len(STR_POOL)], a_note={"k": [1, 2.5]}, x_aa=INT_POOL[pool % len(INT_POOL)])
+        # (custom values are JSON values of any shape: nulls, empty containers and false-y values nested inside them are content like any other)
+        cdoc = dict(doc, x_zz=STR_POOL[pool % len(STR_POOL)], a_note={"k": [1, 2.5], "n": None, "e": {}, "l": [None, [], {"m": None, "z": 0}], "f": False, "s": ""},
+                    x_aa=INT_POOL[pool % len(INT_POOL)], x_list=[{"a": None}, None, 0])
         oc = stix2.parse(cdoc, allow_custom=True, version=ver) if cat == "objects" else stix2.parse_observable(cdoc, allow_custom=True, version=ver)
         r = roundtrip_ok(oc, cls, order)
         if r is not True:
@@ -196,7 +198,7 @@ def run_class_case(ci, pool):
 
 
 # ---- special shapes: bundles, observed-data containers, markings, toplevel-property extensions, datetime inputs in other zones
-NSPECIAL = 20
+NSPECIAL = 22
 
 
 def special_shapes(si: int) -> bool:
@@ -351,6 +353,48 @@ def run_special_case(si):
                 if rr is not True:
                     return (ver, list(cp)) + rr
         return True
+    if si in (20, 21):
+        # one type name offered to two registration decorators (observable then object: si 20; object then observable: si 21), whatever each of
+        # them answers: instances of every class that WAS registered still come back as that class, alone and as bundle members
+        from stix2 import registry
+        saved = {ver: {cat: dict(m) for cat, m in cats.items()} for ver, cats in registry.STIX2_OBJ_MAPS.items()}
+        try:
+            name = "x-dual-%d" % (len(registry.STIX2_OBJ_MAPS["2.1"]["objects"]) + len(registry.STIX2_OBJ_MAPS["2.1"]["observables"]) + si)
+            made = []
+
+            def reg_sco():
+                @stix2.v21.CustomObservable(name, [("val", P.StringProperty(required=True))], ["val"])
+                class DualSco(object):
+                    pass
+                made.append((DualSco, dict(val="v")))
+
+            def reg_sdo():
+                @stix2.v21.CustomObject(name, [("title", P.StringProperty(required=True))])
+                class DualSdo(object):
+                    pass
+                made.append((DualSdo, dict(title="t")))
+            for step in ((reg_sco, reg_sdo) if si == 20 else (reg_sdo, reg_sco)):
+                try:
+                    step()
+                except (STIXError, ValueError):
+                    pass
+            if not made:
+                return ("neither registration accepted",)
+            for cls, kw in made:
+                o = cls(**kw)
+                rr = roundtrip_ok(o, cls, None)
+                if rr is not True:
+                    return ("same name in two categories", cls.__name__) + rr
+                b = stix2.v21.Bundle(o)
+                back = stix2.parse(b.serialize())
+                if type(back.objects[0]) is not cls or back.objects[0] != o:
+                    return ("same name in two categories, bundle member", cls.__name__)
+            return True
+        finally:
+            for ver, cats in saved.items():
+                for cat, m in cats.items():
+                    registry.STIX2_OBJ_MAPS[ver][cat].clear()
+                    registry.STIX2_OBJ_MAPS[ver][cat].update(m)
     if si in (18, 19):
         # classes that have never been instantiated in this process (types registered here), whose FIRST instance carries a registered
         # toplevel-property extension with defaulted properties; later instances without the extension hold custom properties of the same names
